@@ -1,3 +1,4 @@
+pub mod c03b;
 pub mod c04;
 pub mod c04b;
 pub mod c05;
@@ -13,6 +14,7 @@ pub mod c16;
 pub mod c17;
 pub mod c18;
 pub mod hist;
+pub mod multi;
 
 use std::collections::BTreeSet;
 
